@@ -51,6 +51,8 @@ pub fn fri_commit_rounds(
 
     let len: usize = n_layers.to_biguint().try_into().unwrap();
     for i in 0..len {
+        #[cfg(swiftness_verif)]
+        swiftness_transcript::verif::tick("fri.commit_round", 1);
         // Read commitments.
         commitments.push(table_commit(
             transcript,
@@ -108,6 +110,8 @@ fn fri_verify_layers(
     let len: usize = n_layers.to_biguint().try_into().unwrap();
 
     for i in 0..len {
+        #[cfg(swiftness_verif)]
+        swiftness_transcript::verif::tick("fri.verify_layer", 1);
         let target_layer_witness = layer_witness.get(i).unwrap();
         let mut target_layer_witness_leaves = target_layer_witness.leaves.to_owned();
         let target_layer_witness_table_withness = target_layer_witness.table_witness.to_owned();
